@@ -167,6 +167,9 @@ struct Script {
     mixed: bool,
     /// run against the lab app that has a connection timeout configured
     timeout_app: bool,
+    /// with AbruptDisconnect: after the script's frames, a masked text frame header claiming .0 payload bytes, followed
+    /// by only .1 of them and the client's FIN (the peer vanishes in the middle of a frame)
+    torn_tail: Option<(usize, usize)>,
 }
 
 fn gen_payload(rng: &mut Rng, text: bool) -> Vec<u8> {
@@ -232,7 +235,7 @@ fn gen_script(rng: &mut Rng) -> Script {
             items.pop();
         }
     }
-    Script { key, items, end, nonblocking: rng.chance(1, 2), echo: rng.chance(1, 2), delivery: rng.below(3) as u8, mixed: false, timeout_app: false }
+    Script { key, items, end, nonblocking: rng.chance(1, 2), echo: rng.chance(1, 2), delivery: rng.below(3) as u8, mixed: false, timeout_app: false, torn_tail: None }
 }
 
 /// Client frames in wire order (clear payloads) and the handler/server expectations derived from them.
@@ -423,6 +426,14 @@ fn run_script(r: &mut Report, lab: &Lab, s: &Script, id: &str, rng: &mut Rng, re
     if !send_ok && s.end != End::ServerDrop {
         r.count("send_interrupted", 1);
     }
+    if let Some((claimed, sent)) = s.torn_tail {
+        let whole = RefFrame::new(1, true, Some([0x11, 0x22, 0x33, 0x44]), vec![b'z'; claimed]).encode();
+        let header_len = whole.len() - claimed;
+        let _ = c.send(&whole[..header_len + sent.min(claimed)], &[], 0);
+        // FIN, not RST: stop writing but keep reading what the server still sends
+        let _ = c.s.shutdown(std::net::Shutdown::Write);
+        r.count("torn_tail_scripts", 1);
+    }
     // expected server frames in order
     let mut expect: Vec<(u8, Vec<u8>)> = Vec::new();
     {
@@ -453,7 +464,9 @@ fn run_script(r: &mut Report, lab: &Lab, s: &Script, id: &str, rng: &mut Rng, re
                 }
             }
         }
-        if s.end == End::ServerDrop {
+        if s.end == End::ServerDrop || s.torn_tail.is_some() {
+            // the handler returns (on its own, or on the read error of the torn frame) and dropping the stream sends a Close;
+            // after a torn tail the client is still reading, so it sees that Close
             expect.push((8, vec![]));
         }
     }
@@ -604,7 +617,7 @@ pub fn main(args: &Args) {
             while len <= 256 {
                 let mut rng = Rng::derive(seed, 0x1120_0000 + len as u64);
                 let key: String = (0..len).map(|_| (0x21 + rng.below(0x5e) as u8) as char).collect();
-                let s = Script { key: Some(key), items: vec![Item::Msg { text: true, payload: b"hi".to_vec(), cuts: vec![], controls: vec![] }], end: End::ClientClose(vec![]), nonblocking: false, echo: false, delivery: 0, mixed: false, timeout_app: false };
+                let s = Script { key: Some(key), items: vec![Item::Msg { text: true, payload: b"hi".to_vec(), cuts: vec![], controls: vec![] }], end: End::ClientClose(vec![]), nonblocking: false, echo: false, delivery: 0, mixed: false, timeout_app: false, torn_tail: None };
                 let mut frng = Rng::derive(seed, 0x1121_0000 + len as u64);
                 run_script(&mut r, &lab, &s, &format!("hs{}", len), &mut frng, &["c11".to_string(), "--seed".into(), seed.to_string(), "--key-length".into(), len.to_string()]);
                 r.count("handshake_key_lengths_swept", 1);
@@ -623,7 +636,7 @@ pub fn main(args: &Args) {
                 for (v, (text, nonblocking)) in [(true, false), (false, true)].into_iter().enumerate() {
                     let mut prng = Rng::derive(seed, 0x1130_0000 + (*len as u64) * 2 + v as u64);
                     let payload: Vec<u8> = if text { (0..*len).map(|_| b'a' + prng.below(26) as u8).collect() } else { prng.bytes(*len) };
-                    let s = Script { key: Some("dGhlIHNhbXBsZSBub25jZQ==".into()), items: vec![Item::Msg { text, payload, cuts: vec![], controls: vec![] }], end: End::ClientClose(vec![]), nonblocking, echo: true, delivery: 0, mixed: false, timeout_app: false };
+                    let s = Script { key: Some("dGhlIHNhbXBsZSBub25jZQ==".into()), items: vec![Item::Msg { text, payload, cuts: vec![], controls: vec![] }], end: End::ClientClose(vec![]), nonblocking, echo: true, delivery: 0, mixed: false, timeout_app: false, torn_tail: None };
                     let mut frng = Rng::derive(seed, 0x1131_0000 + *len as u64);
                     run_script(&mut r, &lab, &s, &format!("sz{}{}", len, v), &mut frng, &["c11".to_string(), "--seed".into(), seed.to_string(), "--echo-size".into(), len.to_string()]);
                     r.count("echo_sizes_swept", 1);
@@ -690,6 +703,22 @@ pub fn main(args: &Args) {
                     run_script(&mut r, tl, &s, &id, &mut frng, &replay);
                 }
             }
+            // every fifth script also ends with the peer vanishing in the MIDDLE of a frame (header and part of the
+            // payload, then FIN): what was not completely sent is not a message
+            if k % 5 == 2 || only.is_some() {
+                let mut s = base.clone();
+                s.delivery = 0;
+                s.nonblocking = false;
+                s.echo = false;
+                trim_for_slow(&mut s, 6, 4096);
+                s.end = End::AbruptDisconnect;
+                let claimed = *rng.pick(&[2usize, 100, 125, 126, 1000, 70_000]);
+                s.torn_tail = Some((claimed, *rng.pick(&[0usize, 1, claimed / 2, claimed - 1])));
+                let mut frng = Rng::derive(seed, 0x1110_0000 + k);
+                let id = format!("s{}torn", k);
+                r.nontrivial(fnv(format!("{}{:?}", id, script_json(&s).to_string()).as_bytes()));
+                run_script(&mut r, &lab, &s, &id, &mut frng, &replay);
+            }
             if only.is_some() {
                 break;
             }
@@ -702,5 +731,5 @@ pub fn main(args: &Args) {
         total.nontrivial(1);
         total.nontrivial(2);
     }
-    total.write(out, "client scripts of 1..8 items over {text, binary (1..5 fragments with ping/pong interleaved between fragments), ping, pong} with payloads 0..70 KiB and random masks, ending by client Close (with/without status), server drop (handler returns) or abrupt disconnect; Sec-WebSocket-Key absent / empty / 1..256 printable chars / base64 nonce, plus one handshake for every key length 0..256 and one echoed text and binary message for every payload length 0..130 and 65530..65540; each script delivered whole, byte-wise and split inside header / extended length / key, and received once with recv and once with a recv_nonblocking polling loop (with and without echo); every third script also frame by frame with pauses (12 ms before, 8 ms inside each frame) against a handler that alternates non-blocking polls with blocking receives; every twelfth one with 400 ms pauses against an App configured with a 250 ms connection timeout. distinct = distinct (script, delivery, receive mode); every script is non-trivial (handshake + frames + ending judged)", None, &["'nothing yet only when no frame has started to arrive' is judged through its consequences: a completely sent message must be delivered while the handler keeps polling, and a split header must not produce an error or a garbled message", "reference client/validator: hvcommon::wsref (validated against CPython in C18)"]);
+    total.write(out, "client scripts of 1..8 items over {text, binary (1..5 fragments with ping/pong interleaved between fragments), ping, pong} with payloads 0..70 KiB and random masks, ending by client Close (with/without status), server drop (handler returns) or abrupt disconnect; Sec-WebSocket-Key absent / empty / 1..256 printable chars / base64 nonce, plus one handshake for every key length 0..256 and one echoed text and binary message for every payload length 0..130 and 65530..65540; each script delivered whole, byte-wise and split inside header / extended length / key, and received once with recv and once with a recv_nonblocking polling loop (with and without echo); every third script also frame by frame with pauses (12 ms before, 8 ms inside each frame) against a handler that alternates non-blocking polls with blocking receives; every twelfth one with 400 ms pauses against an App configured with a 250 ms connection timeout; every fifth one also ending with the peer vanishing in the middle of a frame (header + part of the payload, then FIN). distinct = distinct (script, delivery, receive mode); every script is non-trivial (handshake + frames + ending judged)", None, &["'nothing yet only when no frame has started to arrive' is judged through its consequences: a completely sent message must be delivered while the handler keeps polling, and a split header must not produce an error or a garbled message", "reference client/validator: hvcommon::wsref (validated against CPython in C18)"]);
 }
